@@ -27,6 +27,8 @@ MSGS = [
     "<?xml version='1.0' encoding='UTF-8'?>\n<ns0:AuthnRequest xmlns:ns0=\"urn:oasis:names:tc:SAML:2.0:protocol\" ID=\"id-1\" Version=\"2.0\"/>",
     "<ns0:Response xmlns:ns0=\"urn:oasis:names:tc:SAML:2.0:protocol\" ID=\"id-2\" Version=\"2.0\"><a x=\"1 &amp; 2\">téxt &lt;b&gt;\nline2</a></ns0:Response>",
     "plain text, not XML at all: é &<>\"'",
+    # long messages (many attributes, an embedded certificate chain): just over 64 KiB of repetitive text (text that does not compress costs ~2 min per path in the traced urllib quoting loop: outside the bound)
+    "<ns0:Response xmlns:ns0=\"urn:oasis:names:tc:SAML:2.0:protocol\" ID=\"id-3\"><a>" + "0123456789abcdef" * 4100 + "</a></ns0:Response>",
 ]
 DESTS = ["https://idp.example.com/sso", "https://idp.example.com/sso?tenant=a&x=1"]
 
@@ -186,12 +188,13 @@ CONDITIONS = [
          params=[("i", "int"), ("j", "int"), ("k", "int"), ("h", "int"), ("m", "int"), ("dq", "int"), ("response", "bool"), ("signed", "bool")],
          pre=["0 <= i < %d" % NA, "0 <= j < %d" % NA, "0 <= k < %d" % NA, "0 <= h <= %d" % len(HOSTILE), "0 <= m < %d" % len(MSGS), "0 <= dq <= 1"],
          partitions={"quick": [{"i": a, "h": 0, "k": 0, "m": (a + 1) % 3, "dq": a % 2, "signed": (a // 2) % 2 == 0, "response": a % 3 == 0} for a in range(NA)] +
-                              [{"i": 0, "j": 0, "k": 0, "h": x, "m": 0} for x in range(1, len(HOSTILE) + 1)],
+                              [{"i": 0, "j": 0, "k": 0, "h": x, "m": 0} for x in range(1, len(HOSTILE) + 1)] +
+                              [{"i": 0, "j": 0, "k": 0, "h": 0, "m": 3}, {"i": 1, "j": 0, "k": 0, "h": 0, "m": 3, "dq": 1}],
                      "thorough": [{"i": a, "j": b, "k": (a + 2 * b) % NA, "h": 0, "signed": (a + b) % 2 == 0, "dq": a % 2} for a in range(NA) for b in range(NA)] +
                                  [{"i": 0, "j": 0, "k": 0, "h": x} for x in range(1, len(HOSTILE) + 1)]},
          timeout={"quick": 600, "thorough": 2400}, path_timeout=60,
          functions=["pack.http_redirect_message", "s_utils.deflate_and_base64_encode", "s_utils.decode_base64_and_inflate", "entity.Entity.unravel (Redirect)"],
-         bounds="RelayState as for form_post; destination with / without an existing query; request / response; signed / unsigned (recording signer)"),
+         bounds="RelayState as for form_post; destination with / without an existing query; request / response; signed / unsigned (recording signer); %d messages incl. one just over 64 KiB (compressible)" % len(MSGS)),
     Cond(name="soap", fn="soap",
          params=[("decl", "int"), ("sep", "int"), ("t1", "int"), ("t2", "int"), ("tail_nl", "bool"), ("via_entity", "bool")],
          pre=["0 <= decl < %d" % len(DECLS), "0 <= sep < %d" % len(SEPS), "0 <= t1 < %d" % len(TXT), "0 <= t2 < %d" % len(TXT)],
